@@ -174,12 +174,19 @@ def container_bytes(inp):
     return bytes(b)
 
 
-def read_data(cid_rows, path):
+def read_data(cid_rows, path, as_stream=False):
+    stream = None
     try:
         cid = interface.Cid()
         cid.read("c10", cid_rows)
         n = 0
-        for _ in cutplace.rows(cid, path):
+        source = path
+        if as_stream:
+            # the caller opens the data itself: text with the declared encoding for delimited / fixed, binary otherwise
+            fmt = cid.data_format.format
+            stream = open(path, "r", encoding=cid.data_format.encoding, newline="") if fmt in ("delimited", "fixed") else open(path, "rb")
+            source = stream
+        for _ in cutplace.rows(cid, source):
             n += 1
         return {"rows": n}
     except errors.DataError as e:
@@ -187,7 +194,10 @@ def read_data(cid_rows, path):
     except errors.InterfaceError as e:
         return {"interface": str(e)[:100]}
     except Exception as e:  # noqa
-        return {"leak": type(e).__name__, "msg": str(e)[:120]}
+        return {"leak": type(e).__name__, "msg": ("from an open stream: " if as_stream else "") + str(e)[:120]}
+    finally:
+        if stream is not None:
+            stream.close()
 
 
 def write_data(cid_rows, rows):
@@ -270,6 +280,10 @@ def make_case(inp):
         with open(path, "wb") as fh:
             fh.write(container_bytes(inp))
         obs = read_data(DATA_CID[ext], path)
+        if "leak" not in obs and ext != "xlsx":
+            by_stream = read_data(DATA_CID[ext], path, as_stream=True)
+            if "leak" in by_stream:
+                obs = by_stream
         if inp.get("damage") == "attr" and "leak" not in obs:
             # the same document used as the CID itself
             try:
